@@ -240,7 +240,8 @@ func (e *Engine) sendPoisonPill(ctx context.Context, graceful bool, pid *PID) co
 		graceful: graceful,
 	}
 	// deadletter - if we didn't find a process, we will broadcast a DeadletterEvent
-	if e.Registry.get(pid) == nil {
+	proc := e.Registry.get(pid)
+	if proc == nil {
 		e.BroadcastEvent(DeadLetterEvent{
 			Target:  pid,
 			Message: pill,
@@ -248,6 +249,11 @@ func (e *Engine) sendPoisonPill(ctx context.Context, graceful bool, pid *PID) co
 		})
 		cancel()
 		return ctx
+	}
+	// The process may be stopped by something else before it gets to this pill (an
+	// earlier stop request, a crash beyond max restarts): the caller is signalled then too.
+	if p, ok := proc.(*process); ok {
+		p.onStopped(cancel)
 	}
 	e.SendLocal(pid, pill, nil)
 	return ctx
